@@ -34,7 +34,59 @@ func Gen(r *core.Rng, tier string) ([]core.In[opsim.Scenario], bool) {
 	for i := 0; i < n/6; i++ {
 		ins = append(ins, core.In[opsim.Scenario]{Input: Limited(rl), Stream: "equal-settings"})
 	}
+	rm := r.Fork()
+	for i := 0; i < 3+n/20; i++ {
+		ins = append(ins, core.In[opsim.Scenario]{Input: ManyQueues(rm), Stream: "many-queues"})
+	}
 	return ins, false
+}
+
+// ManyQueues: "any number of named queues" - 9 to 24 hooks, each with one schedule binding in a queue of its own, ALL of
+// them inside an execution at the same moment (every queue ticked while none is finished), then further ticks and ends
+// in a random order: a queue's execution must start whatever number of other queues are busy.
+func ManyQueues(r *core.Rng) opsim.Scenario {
+	n := []int{9, 10, 12, 16, 17, 24}[r.Intn(6)]
+	var cfg []opsim.Hook
+	for i := 1; i <= n; i++ {
+		cfg = append(cfg, opsim.Hook{Id: i, Sched: []opsim.SB{{Name: i, Queue: i, Cron: i}}})
+	}
+	acts := []opsim.Action{{Kind: "Boot"}}
+	order := make([]int, n)
+	for i := range order {
+		order[i] = i + 1
+	}
+	for i := n - 1; i > 0; i-- {
+		j := r.Intn(i + 1)
+		order[i], order[j] = order[j], order[i]
+	}
+	open := map[int]bool{}
+	queued := map[int]bool{}
+	for _, q := range order {
+		acts = append(acts, opsim.Action{Kind: "Tick", C: q})
+		open[q] = true
+	}
+	for steps := 4 + r.Intn(10); steps > 0; steps-- {
+		q := 1 + r.Intn(n)
+		if open[q] && r.Chance(60) {
+			ok := r.Chance(70)
+			acts = append(acts, opsim.Action{Kind: "Finish", Q: q, Ok: ok})
+			if ok {
+				if queued[q] {
+					queued[q] = false
+				} else {
+					open[q] = false
+				}
+			}
+		} else {
+			acts = append(acts, opsim.Action{Kind: "Tick", C: q})
+			if open[q] {
+				queued[q] = true
+			} else {
+				open[q] = true
+			}
+		}
+	}
+	return opsim.Scenario{Cfg: cfg, Acts: acts}
 }
 
 // Limited: 2-3 hooks in queues of their own carry value-EQUAL `settings` (executionMinInterval one
@@ -122,7 +174,7 @@ func Corpus() []opsim.Scenario {
 
 var Driver = core.Driver[opsim.Scenario, opsim.Trace]{
 	Spec: core.Spec{Property: "C03", Imports: []string{"Op_Model", "Op_Corr", "C03_Spec", "C03_Corr"}, Corr: "C03_Corr", ShrinkKey: "acts",
-		Rule: "generated hook sets (1-4 hooks, kubernetes/schedule bindings over 4 queues, groups, v0) run by the real operator on a fake cluster with scripted hook stubs; actions (Boot, Tick, KubeEv on the managers' channels, Finish ok/fail of an open execution) chosen from the observable state with executions held open at random; after every action the queues' content, open executions, hook-visible contexts and unlocked monitors are compared with the model; stream equal-settings: 2-3 hooks in queues of their own with value-equal `settings` (interval one hour, burst 1-2), each started no more often than its own burst allows, beside a hook without settings that fails and is retried: no execution may wait for a limiter; non-trivial = >=4 actions of >=2 kinds with >=2 executions; distinct = distinct (config, action list)"},
+		Rule: "generated hook sets (1-4 hooks, kubernetes/schedule bindings over 4 queues, groups, v0) run by the real operator on a fake cluster with scripted hook stubs; actions (Boot, Tick, KubeEv on the managers' channels, Finish ok/fail of an open execution) chosen from the observable state with executions held open at random; after every action the queues' content, open executions, hook-visible contexts and unlocked monitors are compared with the model; stream equal-settings: 2-3 hooks in queues of their own with value-equal `settings` (interval one hour, burst 1-2), each started no more often than its own burst allows, beside a hook without settings that fails and is retried: no execution may wait for a limiter; stream many-queues: 9-24 hooks with one schedule binding each in a queue of its own, every queue ticked while none is finished (all of them inside an execution at the same moment), then ticks and ends in a random order; non-trivial = >=4 actions of >=2 kinds with >=2 executions; distinct = distinct (config, action list)"},
 	Gen:      Gen,
 	Run:      opsim.RunScenario,
 	Render:   func(in opsim.Scenario, obs *opsim.Trace, crash string) core.Case { return opsim.Render(in, obs, crash) },
